@@ -13,7 +13,8 @@ Import ListNotations.
 Open Scope Z_scope.
 
 (* 1. for every well-formed history (any length, any paths and spellings; new / regist / unregist /
-   close / get / count / list / attach / detach / idle / unregist-all) the implementation model's answers are
+   close / get / count / list / attach / detach / idle / unregist-all / clock tick / HLS segment, playlist
+   request, segment request) the implementation model's answers are
    exactly the specification's *)
 Theorem C05_impl_refines_spec : forall ops,
   hist_wf sinit ops = true -> snd (grun rfixed rinit ops) = srun sinit ops.
@@ -116,21 +117,44 @@ Theorem C05_closed_never_returned : forall ops1 j ops2 k,
 Proof. exact closed_never_returned. Qed.
 Print Assumptions C05_closed_never_returned.
 
-(* 3c. the idle task closes a live stream only if it has no RTP and no FLV consumer and no recent
-   HLS access (r = "HLS accessed within the period"); it answers true exactly then; it touches no
-   other stream *)
-Theorem C05_idle_only_when_unused : forall ops i r,
+(* 3c. the idle task (one run with period d) closes a live stream only if it has no RTP and no FLV
+   consumer and — when it has an HLS playlist — the playlist's last access is at least d old; it
+   answers true exactly then; it touches no other stream *)
+Theorem C05_idle_only_when_unused : forall ops i d,
   let sp := sexec sinit ops in
   let s := sp_get sp i in
-  let sp' := fst (sstep sp (GIdle i r)) in
+  let sp' := fst (sstep sp (GIdle i d)) in
   (st_live s = true -> st_live (sp_get sp' i) = false ->
-     st_rtp s = 0 /\ st_flv s = 0 /\ (r = false \/ st_hls s = false)) /\
-  (snd (sstep sp (GIdle i r)) = RIdle true <->
-     st_live s = true /\ st_rtp s = 0 /\ st_flv s = 0 /\ (r = false \/ st_hls s = false)) /\
-  (snd (sstep sp (GIdle i r)) = RIdle true -> st_live (sp_get sp' i) = false) /\
+     st_rtp s = 0 /\ st_flv s = 0 /\ (st_hls s = false \/ d <= st_hls_idle s)) /\
+  (snd (sstep sp (GIdle i d)) = RIdle true <->
+     st_live s = true /\ st_rtp s = 0 /\ st_flv s = 0 /\ (st_hls s = false \/ d <= st_hls_idle s)) /\
+  (snd (sstep sp (GIdle i d)) = RIdle true -> st_live (sp_get sp' i) = false) /\
   (forall j, j <> i -> sp_get sp' j = sp_get sp j).
 Proof. exact idle_only_when_unused. Qed.
 Print Assumptions C05_idle_only_when_unused.
+
+(* HLS viewers are not consumers; the idle task sees them through the playlist's last access only.
+   Whatever happens in between, a stream whose playlist was requested (servable or not: fewer than 3
+   segments) or from which a segment was requested less than one period of clock ticks ago is not
+   closed for idleness: the decision answers false and changes nothing *)
+Theorem C05_hls_access_protects : forall ops1 acc ops2 i p,
+  let sp0 := sexec sinit ops1 in
+  (acc = GHlsPoll i \/ exists n, acc = GHlsSeg i n) ->
+  (i < length (sp_streams sp0))%nat -> st_live (sp_get sp0 i) = true -> st_hls (sp_get sp0 i) = true ->
+  ticks ops2 < p ->
+  let sp := sexec sinit (ops1 ++ acc :: ops2) in
+  sstep sp (GIdle i p) = (sp, RIdle false).
+Proof. exact hls_access_protects. Qed.
+Print Assumptions C05_hls_access_protects.
+
+(* the HLS capability of a stream is fixed, and the time since its playlist's last access grows by at
+   most the clock ticks *)
+Theorem C05_hls_idle_time_bounded : forall ops sp j,
+  age_ok sp -> (j < length (sp_streams sp))%nat ->
+  st_hls (sp_get (sexec sp ops) j) = st_hls (sp_get sp j) /\
+  st_hls_idle (sp_get (sexec sp ops) j) <= st_hls_idle (sp_get sp j) + ticks ops.
+Proof. exact age_bound. Qed.
+Print Assumptions C05_hls_idle_time_bounded.
 
 (* 3d. the reported stream count is the number of keys that resolve to a live stream, the consumer
    count the sum of those streams' consumers, the listing the sorted resolving keys *)
@@ -176,6 +200,17 @@ Theorem C05_idle_close_ignores_flv_refuted :
     ok_hist_C05 ops (snd (grun roriginal rinit ops)) = false.
 Proof. exact idle_close_ignores_flv_refuted. Qed.
 Print Assumptions C05_idle_close_ignores_flv_refuted.
+
+(* a playlist that records a request as an access only when it can serve it (a seeded change): the
+   stream is polled, then closed for idleness and gone from the registry *)
+Theorem C05_hls_poll_unstamped_refuted :
+  exists ops,
+    hist_wf sinit ops = true /\
+    snd (grun rpollunstamped rinit ops) = [RUnit; RUnit; RUnit; RHls false; RIdle true; RGet None] /\
+    srun sinit ops = [RUnit; RUnit; RUnit; RHls false; RIdle false; RGet (Some 0%nat)] /\
+    ok_hist_C05 ops (snd (grun rpollunstamped rinit ops)) = false.
+Proof. exact hls_poll_unstamped_refuted. Qed.
+Print Assumptions C05_hls_poll_unstamped_refuted.
 
 (* 5. two publishers racing to register streams 1 and 2 on path p (stream 0 registered there iff
    reg0), each Regist = atomic Swap, then retire of the replaced stream: for every schedule after
@@ -225,6 +260,15 @@ Example C05_nonvacuous :
       RCount 1 0; RList [[47;97]]; RUnit; RGet (Some 1%nat); RCount 1 0;
       RIdle true; RGet None; RCount 0 0; RList [] ].
 Proof. exact example_hist_ok. Qed.
+
+Example C05_hls_nonvacuous :
+  hist_wf sinit example_hls = true /\
+  snd (grun rfixed rinit example_hls) = srun sinit example_hls /\
+  srun sinit example_hls =
+    [ RUnit; RUnit; RUnit; RHls false; RUnit; RIdle false;
+      RUnit; RUnit; RUnit; RUnit; RHls true; RHls true; RHls false; RHls false;
+      RUnit; RIdle false; RUnit; RIdle true; RGet None ].
+Proof. exact example_hls_ok. Qed.
 
 Example C05_shutdown_nonvacuous :
   hist_wf sinit example_shutdown = true /\
